@@ -1,11 +1,170 @@
 import Oracle.Util
+import Wz.Model.FdTable
+import Wz.Model.Readdir
+import Wz.Model.RefFS
 namespace Oracle.C16
-open Oracle
+open Oracle Wz.Model
 
-/-- Topic state (stub: no model behind this topic yet). -/
-abbrev St := Unit
-def init : St := ()
+/-- Topic state: one descriptor table over naturals (zero item = 0), one directory cache, one reference
+file system.  Each harness worker talks to its own oracle process. -/
+structure St where
+  tab : FdTable.Table Nat := FdTable.Table.empty
+  dir : Readdir.Cache := Readdir.Cache.fresh [] 0
+  fs : RefFS.FS := RefFS.FS.init false
 
-def step (st : St) (_args : List String) : St × String := (st, "bad-op")
+def init : St := {}
+
+def parseDirent (s : String) : Option Readdir.Dirent :=
+  match s.splitOn ":" with
+  | [n, i, t] => do
+    let name ← parseBytes n
+    let ino ← parseNat i
+    let typ ← parseNat t
+    pure { name := name, ino := ino, typ := typ }
+  | _ => none
+
+def parseDirents (s : String) : Option (List Readdir.Dirent) :=
+  if s == "-" then some [] else (s.splitOn ",").mapM parseDirent
+
+def comps (p : String) : List String :=
+  if p == "." then [] else (p.splitOn "/").filter (· != "")
+
+def errS (e : RefFS.E) : String := e.name
+
+def step (st : St) (args : List String) : St × String :=
+  match args with
+  -- descriptor.Table
+  | ["t.new"] => ({ st with tab := FdTable.Table.empty }, "ok")
+  | ["t.insert", v] =>
+    match parseNat v with
+    | some v => let r := st.tab.insert v; ({ st with tab := r.1 }, s!"{r.2}")
+    | none => (st, "bad-op")
+  | ["t.insertAt", v, k] =>
+    match parseNat v, parseInt k with
+    | some v, some k => let r := st.tab.insertAt v k; ({ st with tab := r.1 }, b2s r.2)
+    | _, _ => (st, "bad-op")
+  | ["t.lookup", k] =>
+    match parseInt k with
+    | some k => (st, match st.tab.lookup k with | none => "-" | some v => s!"{v}")
+    | none => (st, "bad-op")
+  | ["t.delete", k] =>
+    match parseInt k with
+    | some k => ({ st with tab := st.tab.delete k }, "ok")
+    | none => (st, "bad-op")
+  | ["t.clear"] => ({ st with tab := st.tab.reset }, "ok")
+  | ["t.len"] => (st, s!"{st.tab.len}")
+  -- fd_readdir
+  | ["r.new", ino, es] =>
+    match parseNat ino, parseDirents es with
+    | some ino, some es => ({ st with dir := Readdir.Cache.fresh es ino }, "ok")
+    | _, _ => (st, "bad-op")
+  | ["r.call", bl, ck] =>
+    match parseNat bl, parseNat ck with
+    | some bl, some ck =>
+      match Readdir.fdReaddirCore st.dir bl ck with
+      | (d, .error e) => ({ st with dir := d }, s!"err {e.toNat}")
+      | (d, .ok k) => ({ st with dir := d }, s!"ok {k.bufused bl} {bytesToHex (k.written ck)}")
+    | _, _ => (st, "bad-op")
+  -- reference file system
+  | ["f.init", sn, bn] =>
+    match parseBool sn, parseBool bn with
+    | some sn, some bn => ({ st with fs := RefFS.FS.init sn bn }, "ok")
+    | _, _ => (st, "bad-op")
+  | ["f.open", dfd, p, cr, di, ex, tr, ap, rr, rw] =>
+    match parseInt dfd, parseBool cr, parseBool di, parseBool ex, parseBool tr, parseBool ap, parseBool rr, parseBool rw with
+    | some dfd, some cr, some di, some ex, some tr, some ap, some rr, some rw =>
+      let r := st.fs.pathOpen dfd (comps p)
+        { creat := cr, directory := di, excl := ex, trunc := tr, append := ap, rightRead := rr, rightWrite := rw }
+      ({ st with fs := r.1 }, if r.2.1 == .ok then s!"ESUCCESS {r.2.2}" else errS r.2.1)
+    | _, _, _, _, _, _, _, _ => (st, "bad-op")
+  | ["f.close", fd] =>
+    match parseInt fd with
+    | some fd => let r := st.fs.fdClose fd; ({ st with fs := r.1 }, errS r.2)
+    | none => (st, "bad-op")
+  | ["f.renumber", a, b] =>
+    match parseInt a, parseInt b with
+    | some a, some b => let r := st.fs.fdRenumber a b; ({ st with fs := r.1 }, errS r.2)
+    | _, _ => (st, "bad-op")
+  | ["f.read", fd, len] =>
+    match parseInt fd, parseNat len with
+    | some fd, some len =>
+      let r := st.fs.fdRead fd len
+      ({ st with fs := r.1 }, if r.2.1 == .ok then s!"ESUCCESS {bytesToHex r.2.2}" else errS r.2.1)
+    | _, _ => (st, "bad-op")
+  | ["f.pread", fd, len, off] =>
+    match parseInt fd, parseNat len, parseNat off with
+    | some fd, some len, some off =>
+      let r := st.fs.fdPread fd len off
+      ({ st with fs := r.1 }, if r.2.1 == .ok then s!"ESUCCESS {bytesToHex r.2.2}" else errS r.2.1)
+    | _, _, _ => (st, "bad-op")
+  | ["f.write", fd, bs] =>
+    match parseInt fd, parseBytes bs with
+    | some fd, some bs =>
+      let r := st.fs.fdWrite fd bs
+      ({ st with fs := r.1 }, if r.2.1 == .ok then s!"ESUCCESS {r.2.2}" else errS r.2.1)
+    | _, _ => (st, "bad-op")
+  | ["f.pwrite", fd, bs, off] =>
+    match parseInt fd, parseBytes bs, parseNat off with
+    | some fd, some bs, some off =>
+      let r := st.fs.fdPwrite fd bs off
+      ({ st with fs := r.1 }, if r.2.1 == .ok then s!"ESUCCESS {r.2.2}" else errS r.2.1)
+    | _, _, _ => (st, "bad-op")
+  | ["f.seek", fd, off, wh] =>
+    match parseInt fd, parseInt off, parseNat wh with
+    | some fd, some off, some wh =>
+      let r := st.fs.fdSeek fd off wh
+      ({ st with fs := r.1 }, if r.2.1 == .ok then s!"ESUCCESS {r.2.2}" else errS r.2.1)
+    | _, _, _ => (st, "bad-op")
+  | ["f.tell", fd] =>
+    match parseInt fd with
+    | some fd =>
+      let r := st.fs.fdTell fd
+      ({ st with fs := r.1 }, if r.2.1 == .ok then s!"ESUCCESS {r.2.2}" else errS r.2.1)
+    | none => (st, "bad-op")
+  | ["f.fstat", fd] =>
+    match parseInt fd with
+    | some fd =>
+      let r := st.fs.fdStat fd
+      (st, if r.1 == .ok then s!"ESUCCESS {r.2.1} {r.2.2}" else errS r.1)
+    | none => (st, "bad-op")
+  | ["f.setsize", fd, sz] =>
+    match parseInt fd, parseInt sz with
+    | some fd, some sz => let r := st.fs.fdSetSize fd sz; ({ st with fs := r.1 }, errS r.2)
+    | _, _ => (st, "bad-op")
+  | ["f.pstat", dfd, p] =>
+    match parseInt dfd with
+    | some dfd =>
+      let r := st.fs.pathStat dfd (comps p)
+      (st, if r.1 == .ok then s!"ESUCCESS {r.2.1} {r.2.2}" else errS r.1)
+    | none => (st, "bad-op")
+  | ["f.mkdir", dfd, p] =>
+    match parseInt dfd with
+    | some dfd => let r := st.fs.mkdir dfd (comps p); ({ st with fs := r.1 }, errS r.2)
+    | none => (st, "bad-op")
+  | ["f.unlink", dfd, p] =>
+    match parseInt dfd with
+    | some dfd => let r := st.fs.unlink dfd (comps p); ({ st with fs := r.1 }, errS r.2)
+    | none => (st, "bad-op")
+  | ["f.rmdir", dfd, p] =>
+    match parseInt dfd with
+    | some dfd => let r := st.fs.rmdir dfd (comps p); ({ st with fs := r.1 }, errS r.2)
+    | none => (st, "bad-op")
+  | ["f.rename", f1, p1, f2, p2] =>
+    match parseInt f1, parseInt f2 with
+    | some f1, some f2 => let r := st.fs.rename f1 (comps p1) f2 (comps p2); ({ st with fs := r.1 }, errS r.2)
+    | _, _ => (st, "bad-op")
+  | ["f.ls", fd] =>
+    match parseInt fd with
+    | some fd =>
+      let r := st.fs.ls fd
+      (st, if r.1 == .ok then
+             "ESUCCESS " ++ (if r.2.isEmpty then "-" else ",".intercalate (r.2.map (fun e => e.1 ++ ":" ++ (if e.2 then "d" else "f"))))
+           else errS r.1)
+    | none => (st, "bad-op")
+  | ["f.tree"] =>
+    let l := st.fs.dump (st.fs.nodes.length + 1) 0 ""
+    (st, if l.isEmpty then "-" else ",".intercalate (l.map (fun e =>
+      if e.2.1 then "d:" ++ e.1 else "f:" ++ e.1 ++ ":" ++ bytesToHex e.2.2)))
+  | _ => (st, "bad-op")
 
 end Oracle.C16
